@@ -89,7 +89,11 @@ uint64_t vprop_enum_count (const char *tier)
   }
   enum_prefix[n_int_ops] = tot;
   enum_total = tot;
+#if !defined(C03_MODE) && !defined(C10_MODE)
+  return tot + 7 * 3;                 /* the corner programs (N_CORNER) on avx, sse, mmx */
+#else
   return tot;
+#endif
 }
 
 size_t vprop_enum_stream (uint64_t idx, uint32_t *out, size_t max)
@@ -98,6 +102,7 @@ size_t vprop_enum_stream (uint64_t idx, uint32_t *out, size_t max)
   uint64_t rel;
   size_t n = 0;
   if (!enum_total) vprop_enum_count ("quick");
+  if (idx >= enum_total) { out[0] = 0xC01C0DE1u; out[1] = (uint32_t) ((idx - enum_total) / 3); out[2] = (uint32_t) ((idx - enum_total) % 3); return 3; }
   while (i + 1 < n_int_ops && enum_prefix[i + 1] <= idx) i++;
   rel = idx - enum_prefix[i];
   out[n++] = 1;
@@ -305,6 +310,78 @@ static int run_one (OrcProgram *p, ProgSpec *ps, RunCfg *rc, VResult *r, const c
 
 #endif
 
+#if !defined(C03_MODE) && !defined(C10_MODE)
+/* ---- corner programs: valid programs (the compiler accepts them on every path) whose shapes the generator leaves out because
+   their meaning differs between emulation, the machine code and the generated C.  They are written out by hand, run here on every
+   executable target and reported under their own signatures, which known_findings.json lists ---- */
+#define CORNER_MAGIC 0xC01C0DE1u
+#define N_CORNER 7
+static const struct { const char *name, *sig; } corners[N_CORNER] = {
+  { "x2 accw a1, s1  (4-byte accumulator and array)", "corner:x-prefix-on-accumulate" },
+  { "x2 accl a1, s1  (8-byte accumulator and array)", "corner:x-prefix-on-accumulate" },
+  { "x2 accsadubl a1, s1, s2  (8-byte accumulator, 2-byte arrays)", "corner:x-prefix-on-accumulate" },
+  { "x2 loadoffb d1, s1, 1  (2-byte arrays)", "corner:x-prefix-on-special-load" },
+  { "x2 loadupdb d1, s1  (2-byte arrays)", "corner:x-prefix-on-special-load" },
+  { "addq d1, s1, c1 with .const 4 c1 -9", "corner:narrow-scalar-in-64bit-op" },
+  { "addq d1, s1, p1 with .param 4 p1 = -5", "corner:narrow-scalar-in-64bit-op" },
+};
+static void corner_case (VResult *r, int k, int t)
+{
+  OrcProgram *p = orc_program_new ();
+  OrcTarget *target = orc_target_get_by_name (tnames[t]);
+  OrcCompileResult res;
+  OrcExecutor e1, e2;
+  static uint64_t s1[160], s2[160], d1a[160], d1b[160];
+  int i, n = 37, a = -1, d = -1, sv1 = -1, sv2 = -1, pv = -1, dsize = 0, bad = 0;
+  char sig[V_SIG_MAX];
+  k %= N_CORNER;
+  v_desc (r, "# C01 corner program %d on %s: %s\n", k, tnames[t], corners[k].name);
+  switch (k) {
+    case 0: sv1 = orc_program_add_source (p, 4, "s1"); a = orc_program_add_accumulator (p, 4, "a1"); orc_program_append_2 (p, "accw", ORC_INSTRUCTION_FLAG_X2, a, sv1, 0, 0); break;
+    case 1: sv1 = orc_program_add_source (p, 8, "s1"); a = orc_program_add_accumulator (p, 8, "a1"); orc_program_append_2 (p, "accl", ORC_INSTRUCTION_FLAG_X2, a, sv1, 0, 0); break;
+    case 2: sv1 = orc_program_add_source (p, 2, "s1"); sv2 = orc_program_add_source (p, 2, "s2"); a = orc_program_add_accumulator (p, 8, "a1");
+            orc_program_append_2 (p, "accsadubl", ORC_INSTRUCTION_FLAG_X2, a, sv1, sv2, 0); break;
+    case 3: d = orc_program_add_destination (p, 2, "d1"); sv1 = orc_program_add_source (p, 2, "s1"); dsize = 2;
+            orc_program_append_2 (p, "loadoffb", ORC_INSTRUCTION_FLAG_X2, d, sv1, orc_program_add_constant (p, 4, 1, "c1"), 0); break;
+    case 4: d = orc_program_add_destination (p, 2, "d1"); sv1 = orc_program_add_source (p, 2, "s1"); dsize = 2;
+            orc_program_append_2 (p, "loadupdb", ORC_INSTRUCTION_FLAG_X2, d, sv1, 0, 0); break;
+    case 5: d = orc_program_add_destination (p, 8, "d1"); sv1 = orc_program_add_source (p, 8, "s1"); dsize = 8;
+            orc_program_append_2 (p, "addq", 0, d, sv1, orc_program_add_constant (p, 4, -9, "c1"), 0); break;
+    default: d = orc_program_add_destination (p, 8, "d1"); sv1 = orc_program_add_source (p, 8, "s1"); dsize = 8; pv = orc_program_add_parameter (p, 4, "p1");
+            orc_program_append_2 (p, "addq", 0, d, sv1, pv, 0); break;
+  }
+  v_stage (r, "corner compile target=%s", tnames[t]);
+  res = orc_program_compile_full (p, target, orc_target_get_default_flags (target));
+  v_desc (r, "# compile result: %s\n", v_result_name (res));
+  r->hash = 0xC0C0000u + (uint64_t) (k * 8 + t);
+  if (!ORC_COMPILE_RESULT_IS_SUCCESSFUL (res)) { r->verdict = V_DISCARD; orc_program_free (p); return; }
+  for (i = 0; i < 160; i++) { s1[i] = v_mix64 (0x5151 + (uint64_t) i); s2[i] = v_mix64 (0x5252 + (uint64_t) i); d1a[i] = d1b[i] = 0x5a5a5a5a5a5a5a5aULL; }
+  memset (&e1, 0, sizeof e1); memset (&e2, 0, sizeof e2);
+  orc_executor_set_program (&e1, p); orc_executor_set_program (&e2, p);
+  orc_executor_set_n (&e1, n); orc_executor_set_n (&e2, n);
+  if (sv1 >= 0) { e1.arrays[sv1] = s1; e2.arrays[sv1] = s1; }
+  if (sv2 >= 0) { e1.arrays[sv2] = s2; e2.arrays[sv2] = s2; }
+  if (d >= 0) { e1.arrays[d] = d1a; e2.arrays[d] = d1b; }
+  if (pv >= 0) { orc_executor_set_param (&e1, pv, -5); orc_executor_set_param (&e2, pv, -5); }
+  v_stage (r, "corner run target=%s", tnames[t]);
+  v_shielded_call ((void *) p->code_exec, &e1);
+  orc_executor_emulate (&e2);
+  r->nontrivial = 1; r->sub_evals = 1; r->sub_nontrivial = 1;
+  if (d >= 0 && memcmp (d1a, d1b, (size_t) (n * dsize)) != 0) {
+    for (i = 0; i < n * dsize && ((unsigned char *) d1a)[i] == ((unsigned char *) d1b)[i]; i++) {}
+    snprintf (sig, sizeof sig, "%s target=%s", corners[k].sig, tnames[t]);
+    v_fail (r, sig, "%s: native %s code and emulation differ at byte %d of d1 (element %d): native 0x%02x, emulation 0x%02x", corners[k].name, tnames[t], i, i / dsize,
+        ((unsigned char *) d1a)[i], ((unsigned char *) d1b)[i]);
+    bad = 1;
+  }
+  if (!bad && a >= 0 && e1.accumulators[0] != e2.accumulators[0]) {
+    snprintf (sig, sizeof sig, "%s target=%s", corners[k].sig, tnames[t]);
+    v_fail (r, sig, "%s: accumulator from native %s code 0x%08x, from emulation 0x%08x (n=%d)", corners[k].name, tnames[t], (unsigned) e1.accumulators[0], (unsigned) e2.accumulators[0], n);
+  }
+  orc_program_free (p);
+}
+#endif
+
 void vprop_case (VChoices *c, VResult *r)
 {
   static ProgSpec ps;
@@ -318,6 +395,9 @@ void vprop_case (VChoices *c, VResult *r)
   unsigned flags, variant;
   uint64_t h;
 
+#if !defined(C03_MODE) && !defined(C10_MODE)
+  if (c->n >= 3 && c->v[0] == CORNER_MAGIC) { corner_case (r, (int) c->v[1], (int) (c->v[2] % 3)); return; }
+#endif
   gen_opts_default (&go);
 #ifdef C10_MODE
   go.allow_float = 1;
